@@ -256,5 +256,6 @@ def build_reference(root: str, rels: list[str]) -> dict:
             sig = signature(fn)
             if any(names for _, names in sig):
                 d[key] = [[t, n] for t, n in sig]
+        d["#funcs"] = sorted({q for q, _ in functions(tree)})
         out[rel] = d
     return out
